@@ -213,7 +213,8 @@ Definition comps_post (h : nat) (cts : list ctype) (rd : bytes) (names : list wn
       w_cursor w' <= w_cursor w + length rd /\ ext (w_cursor w) w w' /\
       exists parts, parts_at (w_buf w') L' parts (w_cursor w) (w_cursor w') /\
         map part_abs parts = rd_parts cts rd /\ Forall (part_cp (exactf (w_mode w))) parts /\
-        (forall s, L' s <-> L s \/ In s (parts_starts parts)) /\ parts_shape cts parts
+        (forall s, L' s <-> L s \/ In s (parts_starts parts)) /\ parts_shape cts parts /\
+        (w_mode w = Disabled -> Forall part_plain parts)
   | Err (e, w') => (e = Truncation /\ w_avail w < w_cursor w + length rd) \/ (e = InvalidRdata /\ cts <> [])
   | Panic => False
   end.
@@ -247,7 +248,7 @@ Proof.
       split; [reflexivity|]. split; [reflexivity|]. split; [exact Ha|]. split; [exact Hv|].
       split; [reflexivity|]. split; [lia|]. split; [apply ext_refl; apply Hi|].
       exists []. simpl. rewrite E0. split; [reflexivity|]. split; [reflexivity|]. split; [constructor|].
-      split; [intros s; tauto|exact I].
+      split; [intros s; tauto|]. split; [exact I|intros _; constructor].
     + destruct (try_push rd w) as [[u w1]|[e w1]|] eqn:E; simpl.
       * destruct (try_push_ext (w_cursor w) _ _ _ _ E (le_n _)) as [X [[S1 [S2 [S3 S4]]] [Hcur [Hsl Hag]]]].
         exists L. rewrite app_nil_r. split; [apply grew_refl|]. split; [eapply NInv_try_push; eauto|].
@@ -256,14 +257,14 @@ Proof.
         exists [LPRaw (w_cursor w) rd]. simpl. rewrite E0.
         split; [split; auto; split; auto; split; [rewrite <- Hcur; exact Hsl|split; lia]|].
         split; [reflexivity|]. split; [repeat constructor|]. split; [intros s; tauto|].
-        destruct rd; [simpl in E0; discriminate E0|discriminate].
+        split; [destruct rd; [simpl in E0; discriminate E0|discriminate]|intros _; repeat constructor].
       * left. apply try_push_err in E as E'. destruct E' as [-> ->]. split; auto.
         eapply try_push_err_size; eauto. apply Hi.
       * destruct Hi as [[N1 N2] _ _ _ _ _ _ _]. eapply try_push_no_panic; eauto.
   - assert (Hstep : forall (wr : wname -> writer -> M (option prior)),
                (forall n, wf_name n -> name_postL (exactf (w_mode w)) h n w L (wr n w)) ->
                match ct with CtFixed _ => False | _ => True end ->
-               (is_comp ct = false -> forall n pr w1, wr n w = Ok (pr, w1) ->
+               ((is_comp ct = false \/ w_mode w = Disabled) -> forall n pr w1, wr n w = Ok (pr, w1) ->
                   slice (w_buf w1) (w_cursor w) (w_cursor w1) = nm_wire n) ->
                rd_parts (ct :: rest) rd =
                  match parse_uncompressed_name rd false with
@@ -307,7 +308,7 @@ Proof.
           unfold comps_post in IH.
           destruct (write_components rest (skipn len rd) (hv_push v pr) (set_mrn w1 pr)) as [[v' w3]|[e w3]|];
             auto.
-          * destruct IH as [L3 [G3 [Hi3 [Q3 [O3 [A3 [V3 [Vs [Hc3 [X3 [parts3 [P3 [Pa3 [Pc3 [Pt3 Ps3]]]]]]]]]]]]]]].
+          * destruct IH as [L3 [G3 [Hi3 [Q3 [O3 [A3 [V3 [Vs [Hc3 [X3 [parts3 [P3 [Pa3 [Pc3 [Pt3 [Ps3 Pp3]]]]]]]]]]]]]]]].
             simpl in Q3, O3, Hc3, X3, G3, P3, Pc3.
             rewrite skipn_length in Hc3.
             exists L3. split.
@@ -323,9 +324,10 @@ Proof.
             { destruct W as [_ [_ [Hem _]]]. pose proof (nm_wire_length (labels_of_name nm)). destruct Hem; lia. }
             pose proof (x_agree _ _ _ X3) as Ag3. simpl in Ag3.
             pose proof (x_cur _ _ _ X3) as Cu3. simpl in Cu3.
-            assert (Hsh' : is_comp ct = false -> sh = None).
+            assert (Hsh'' : is_comp ct = false \/ w_mode w = Disabled -> sh = None).
             { intros Hc. destruct sh as [[k pp]|]; auto. exfalso.
               eapply shape_plain_unique; eauto. }
+            assert (Hsh' : is_comp ct = false -> sh = None) by (intros; apply Hsh''; auto).
             exists (LPName (mkNC (w_cursor w) (w_cursor w1) (labels_of_name nm) (exactf (w_mode w)) sh) (is_comp ct)
                     :: parts3).
             split.
@@ -336,7 +338,8 @@ Proof.
             split; [simpl; rewrite Pa3; reflexivity|].
             split; [constructor; [reflexivity|rewrite (x_mode _ _ _ X) in Pc3; exact Pc3]|].
             split; [intros s; rewrite Pt3, Ht1; simpl; unfold chunk_starts; simpl; rewrite in_app_iff; tauto|].
-            destruct ct; simpl; auto; contradiction.
+            split; [destruct ct; simpl; auto; contradiction|].
+            intros Hd. constructor; [simpl; apply Hsh''; auto|]. apply Pp3. simpl. rewrite (x_mode _ _ _ X). exact Hd.
           * destruct IH as [[-> Hs]|[-> Hs]]; [left|right; split; auto; discriminate].
             split; auto. simpl in Hs. rewrite skipn_length in Hs. rewrite (x_av _ _ _ X) in Hs. lia.
         + destruct Hpost as [-> [X [Sd Hs]]]. left. split; auto. lia.
@@ -344,8 +347,9 @@ Proof.
       - right. split; auto. discriminate.
       - destruct (parse_uncompressed_total rd false) as [Hp _]. congruence. }
     destruct ct as [| |k].
-    + apply (Hstep write_unhinted_name); [|exact I|discriminate|reflexivity|reflexivity].
-      intros n Hwn. apply write_unhinted_L; auto.
+    + apply (Hstep write_unhinted_name); [|exact I| |reflexivity|reflexivity].
+      * intros n Hwn. apply write_unhinted_L; auto.
+      * intros [Hc|Hd] n pr w1 E; [discriminate|]. eapply disabled_plain_unhinted; eauto.
     + apply (Hstep write_uncompressed_name); [|exact I| |reflexivity|reflexivity].
       * intros n Hwn. apply name_postL_weaken. apply write_uncompressed_L; auto.
       * intros _ n pr w1 E. eapply uncompressed_plain; eauto.
@@ -365,7 +369,7 @@ Proof.
         specialize (IH (skipn k rd) names gr v w1 L Hi1 (wf_bytes_skipn _ _ Hwf) A1 V1).
         unfold comps_post in IH.
         destruct (write_components rest (skipn k rd) v w1) as [[v' w3]|[e w3]|]; auto.
-        -- destruct IH as [L3 [G3 [Hi3 [Q3 [O3 [A3 [V3 [Vs [Hc3 [X3 [parts3 [P3 [Pa3 [Pc3 [Pt3 Ps3]]]]]]]]]]]]]]].
+        -- destruct IH as [L3 [G3 [Hi3 [Q3 [O3 [A3 [V3 [Vs [Hc3 [X3 [parts3 [P3 [Pa3 [Pc3 [Pt3 [Ps3 Pp3]]]]]]]]]]]]]]]].
            rewrite skipn_length in Hc3.
            exists L3. split.
            { apply (grew_trans w w1 w3 L L L3); [apply X|apply X3|apply grew_refl|exact G3]. }
@@ -383,7 +387,8 @@ Proof.
            split; [simpl; rewrite Pa3; reflexivity|].
            split; [constructor; [exact I|rewrite (x_mode _ _ _ X) in Pc3; exact Pc3]|].
            split; [intros s; rewrite Pt3; simpl; tauto|].
-           simpl. split; auto. rewrite firstn_length. lia.
+           split; [simpl; split; auto; rewrite firstn_length; lia|].
+           intros Hd. constructor; [exact I|]. apply Pp3. rewrite (x_mode _ _ _ X). exact Hd.
         -- destruct IH as [[-> Hs]|[-> Hs]]; [left|right; split; auto; discriminate].
            split; auto. rewrite skipn_length in Hs. rewrite (x_av _ _ _ X) in Hs. lia.
       * left. apply try_push_err in E as E'. destruct E' as [-> ->]. split; auto.
@@ -485,7 +490,8 @@ Definition rr_post (owner : wname) (ty cl ttl : N) (cts : list ctype) (rd : byte
       w_cursor w' <= w_cursor w + length (nm_wire owner) + 10 + length rd /\ w_qname w' = w_qname w /\
       exists r, rr_at (w_buf w') L' r /\ nc_pos (lr_owner r) = w_cursor w /\ lr_end r = w_cursor w' /\
                 rr_desc r owner (exactf (w_mode w)) ty cl ttl cts rd /\
-                forall s, L' s <-> L s \/ In s (rr_starts r)
+                (forall s, L' s <-> L s \/ In s (rr_starts r)) /\
+                (w_mode w = Disabled -> rr_plain r)
   | Err (e, w') =>
     (e = Truncation /\ w_avail w < w_cursor w + length (nm_wire owner) + 10 + length rd) \/
     (e = InvalidRdata /\ cts <> [])
@@ -502,7 +508,7 @@ Lemma add_rr_L h owner ty cl ttl rd v w L names gq go gr :
 Proof.
   intros Hi A V Hwf Hrd Hh HhL. unfold add_rr.
   pose proof (write_hinted_L _ h owner w L Hi Hwf Hh HhL) as P1.
-  destruct (write_hinted_name h owner w) as [[pr w1]|[e w1]|]; simpl in P1; cbn [bind]; auto.
+  destruct (write_hinted_name h owner w) as [[pr w1]|[e w1]|] eqn:Ewh; simpl in P1; cbn [bind]; auto.
   2:{ destruct P1 as [-> [_ [_ Hs]]]. left. split; auto. lia. }
   destruct P1 as [W [Hsz [_ [L1 [G1 [Hi1 [HpL HT1]]]]]]].
   pose proof W as [X [Sd _]].
@@ -577,7 +583,7 @@ Proof.
   destruct (write_components (component_types cl ty) rd v w5) as [[v' w6]|[e w6]|]; cbn [bind]; auto.
   2:{ destruct P6 as [[-> Hs]|[-> Hs]]; [left|right; auto]. split; auto.
       unfold w5 in Hs; simpl in Hs. lia. }
-  destruct P6 as [L6 [G6 [Hi6 [Q6 [O6 [A6 [V6 [Vs [Hc6 [X6 [parts [P6 [Pa6 [Pc6 [Pt6 Ps6]]]]]]]]]]]]]]].
+  destruct P6 as [L6 [G6 [Hi6 [Q6 [O6 [A6 [V6 [Vs [Hc6 [X6 [parts [P6 [Pa6 [Pc6 [Pt6 [Ps6 Pp6]]]]]]]]]]]]]]]].
   unfold w5 in Q6, O6, Hc6, X6, P6, Pc6; simpl in Q6, O6, Hc6, X6, P6, Pc6. fold w5 in X6.
   pose proof (x_cur _ _ _ X6) as Hcur6. unfold w5 in Hcur6; simpl in Hcur6.
   destruct (w_cursor w6 <? c4 + 2) eqn:Ec; [apply Nat.ltb_lt in Ec; lia|].
@@ -644,7 +650,12 @@ Proof.
   split.
   { unfold rr_desc; simpl. repeat split; auto; try lia. rewrite <- Hm1.
     rewrite <- (x_mode _ _ _ X2), <- (x_mode _ _ _ X3), <- (x_mode _ _ _ X4). exact Pc6. }
-  intros s. rewrite Pt6, Ht1. unfold rr_starts, chunk_starts. simpl. rewrite in_app_iff. tauto.
+  split; [intros s; rewrite Pt6, Ht1; unfold rr_starts, chunk_starts; simpl; rewrite in_app_iff; tauto|].
+  intros Hd. split; simpl.
+  - destruct sh as [[k pp]|]; auto. exfalso.
+    destruct (disabled_plain_hinted h owner w pr w1 Hd Ewh) as [Hpl _].
+    eapply shape_plain_unique; eauto.
+  - apply Pp6. unfold w5. simpl. rewrite (x_mode _ _ _ X4), (x_mode _ _ _ X3), (x_mode _ _ _ X2), Hm1. exact Hd.
 Qed.
 
 (* ---------------------------------------------------------------- add_rrset *)
@@ -676,7 +687,8 @@ Definition rrset_post (owner : wname) (ty cl ttl : N) (cts : list ctype) (rds : 
       w_qname w' = w_qname w /\
       exists rs, rrs_at (w_buf w') L' rs (w_cursor w) (w_cursor w') /\
                  Forall2 (fun r rd => rr_desc r owner (exactf (w_mode w)) ty cl ttl cts rd) rs rds /\
-                 forall s, L' s <-> L s \/ In s (rrs_starts rs)
+                 (forall s, L' s <-> L s \/ In s (rrs_starts rs)) /\
+                 (w_mode w = Disabled -> Forall rr_plain rs)
   | Err (e, w') =>
     (e = Truncation /\ w_avail w < w_cursor w + rds_size owner rds) \/ (e = InvalidRdata /\ cts <> [])
   | Panic => False
@@ -691,14 +703,15 @@ Proof.
   induction rds as [|rd rest IH]; intros h v k w L names go gr Hi A V Hwf Hrds Hh HhL.
   - simpl. exists L. rewrite app_nil_r. split; [apply grew_refl|]. split; [exact Hi|].
     split; [exact A|]. split; [exact V|]. split; [reflexivity|]. split; [lia|]. split; [lia|]. split; [lia|].
-    split; [reflexivity|]. exists []. simpl. split; [reflexivity|]. split; [constructor|]. intros s; tauto.
+    split; [reflexivity|]. exists []. simpl. split; [reflexivity|]. split; [constructor|].
+    split; [intros s; tauto|intros _; constructor].
   - inversion Hrds as [|? ? Hrd Hrest]; subst. cbn [add_rrset_loop].
     pose proof (add_rr_L h owner ty cl ttl rd v w L names gq go gr Hi A V Hwf Hrd Hh HhL) as P.
     assert (Hpre : pre (w_cursor w) w) by (split; [lia|apply Hi]).
     pose proof (frame_add_rr (w_cursor w) h owner ty cl ttl rd v w Hpre) as F.
     destruct (add_rr h owner ty cl ttl rd v w) as [[v1 w1]|[e w1]|]; simpl in P, F; cbn [bind]; auto.
     2:{ simpl. destruct P as [[-> Hs]|[-> Hs]]; [left|right; auto]. split; auto. lia. }
-    destruct P as [L1 [G1 [Hi1 [A1 [V1 [Vs1 [Hc1 [Hq1 [r1 [R1 [Rp1 [Re1 [Rd1 Rt1]]]]]]]]]]]]].
+    destruct P as [L1 [G1 [Hi1 [A1 [V1 [Vs1 [Hc1 [Hq1 [r1 [R1 [Rp1 [Re1 [Rd1 [Rt1 Rpl1]]]]]]]]]]]]]].
     assert (Hpre1 : pre (w_cursor w1) w1) by (split; [lia|apply Hi1]).
     pose proof (frame_rrset_loop (w_cursor w1) rest HOwner owner ty cl ttl v1 (S k) w1 Hpre1) as F2.
     specialize (IH HOwner v1 (S k) w1 L1 (names ++ rd_names (component_types cl ty) rd) (Some owner)
@@ -706,7 +719,7 @@ Proof.
                    (owner_hint_ok _ _ _ _ _ _ Hi1 A1) I).
     unfold rrset_post in IH |- *.
     destruct (add_rrset_loop HOwner owner ty cl ttl rest v1 (S k) w1) as [[[v2 k2] w2]|[e w2]|]; auto.
-    + destruct IH as [L2 [G2 [Hi2 [A2 [V2 [Vs2 [Hk [Hc2 [Hm2 [Hq2 [rs2 [R2 [Rd2 Rt2]]]]]]]]]]]]].
+    + destruct IH as [L2 [G2 [Hi2 [A2 [V2 [Vs2 [Hk [Hc2 [Hm2 [Hq2 [rs2 [R2 [Rd2 [Rt2 Rpl2]]]]]]]]]]]]]].
       simpl in F2.
       pose proof (x_cur _ _ _ F) as Hm1.
       exists L2. split.
@@ -721,7 +734,8 @@ Proof.
         - rewrite Re1. split; [lia|exact R2]. }
       split.
       { constructor; auto. rewrite <- (x_mode _ _ _ F). exact Rd2. }
-      intros s. rewrite Rt2, Rt1. unfold rrs_starts. simpl. rewrite in_app_iff. tauto.
+      split; [intros s; rewrite Rt2, Rt1; unfold rrs_starts; simpl; rewrite in_app_iff; tauto|].
+      intros Hd. constructor; auto. apply Rpl2. rewrite (x_mode _ _ _ F). exact Hd.
     + destruct IH as [[-> Hs]|[-> Hs]]; [left|right; auto]. split; auto.
       rewrite (x_av _ _ _ F) in Hs. simpl. lia.
 Qed.
